@@ -117,7 +117,8 @@ def chebyshev_distance(x: np.array, y: np.array) -> float:
 
     """
 
-    dist = np.fabs(x - y)
+    # `maximum - minimum` equals `fabs(x - y)` and does not wrap around for unsigned integer vectors
+    dist = np.maximum(x, y) - np.minimum(x, y)
 
     return np.amax(dist)
 
@@ -286,7 +287,8 @@ def gower_distance(x: np.array, y: np.array) -> float:
 
     """
 
-    dist = np.fabs(x - y)
+    # `maximum - minimum` equals `fabs(x - y)` and does not wrap around for unsigned integer vectors
+    dist = np.maximum(x, y) - np.minimum(x, y)
 
     return np.sum(dist) / x.shape[0]
 
@@ -542,7 +544,8 @@ def lorentzian_distance(x: np.array, y: np.array) -> float:
 
     """
 
-    dist = np.log(1 + np.fabs(x - y))
+    # `maximum - minimum` equals `fabs(x - y)` and does not wrap around for unsigned integer vectors
+    dist = np.log(1.0 + (np.maximum(x, y) - np.minimum(x, y)))
 
     return np.sum(dist)
 
@@ -560,7 +563,8 @@ def manhattan_distance(x: np.array, y: np.array) -> float:
 
     """
 
-    dist = np.fabs(x - y)
+    # `maximum - minimum` equals `fabs(x - y)` and does not wrap around for unsigned integer vectors
+    dist = np.maximum(x, y) - np.minimum(x, y)
 
     return np.sum(dist)
 
@@ -675,7 +679,8 @@ def non_intersection_distance(x: np.array, y: np.array) -> float:
 
     """
 
-    dist = np.fabs(x - y)
+    # `maximum - minimum` equals `fabs(x - y)` and does not wrap around for unsigned integer vectors
+    dist = np.maximum(x, y) - np.minimum(x, y)
 
     return 0.5 * np.sum(dist)
 
